@@ -231,15 +231,21 @@ func gen(s shape, k int) (prog, error) {
 
 	var script, a, q string
 	usesA, usesQ := false, false
-	switch s.Ctx {
+	flush := ""
+	ctxName := s.Ctx
+	if strings.HasSuffix(ctxName, "_flush") {
+		ctxName = strings.TrimSuffix(ctxName, "_flush")
+		flush = "victim.TouchNC()"
+	}
+	switch ctxName {
 	case "s_main":
-		script = fn("main(cur realm)", acq, w)
+		script = fn("main(cur realm)", acq, w, flush)
 	case "s_fn":
 		script = fn("attack()", acq, w) + fn("main(cur realm)", "attack()")
 	case "s_defer":
 		script = fn("main(cur realm)", acq, "defer "+clo("", w)+"()")
 	case "s_clo_Rx":
-		script = fn("main(cur realm)", acq, "victim.Visit(cross(cur), "+clo("", w)+")")
+		script = fn("main(cur realm)", acq, "victim.Visit(cross(cur), "+clo("", w)+")", flush)
 	case "s_clo_Rnc":
 		script = fn("main(cur realm)", acq, "victim.VisitNC("+clo("", w)+")")
 	case "s_fn_Rx":
@@ -254,7 +260,7 @@ func gen(s shape, k int) (prog, error) {
 		if typ == "pcur" {
 			a = "type rbox struct{ r realm }\n\nvar (\n\tsaved realm\n\tsbox  rbox\n\tslist []realm\n\tsmap  = map[string]realm{}\n\tsfn   func() string\n\tsany  any\n)\n\n" + a
 		}
-		script = fn("main(cur realm)", aName+".Attack(cross(cur))")
+		script = fn("main(cur realm)", aName+".Attack(cross(cur))", flush)
 	case "a_nc":
 		usesA = true
 		a = fn("AttackNC()", acq, w)
@@ -278,7 +284,7 @@ func gen(s shape, k int) (prog, error) {
 	case "q_fn_s":
 		usesQ = true
 		q = fn("Attack(h "+tn+")", w)
-		script = fn("main(cur realm)", acq, qName+".Attack(h)")
+		script = fn("main(cur realm)", acq, qName+".Attack(h)", flush)
 	case "q_fn_a":
 		usesA, usesQ = true, true
 		q = fn("Attack(h "+tn+")", w)
